@@ -23,12 +23,15 @@ func init() {
 func runC19(c *Ctx) {
 	c.rule("chain", "(shared with C11) the environment source derives names with the documented casings: flatten encodes UpperCamelCase, the reformatter decodes Go identifiers and encodes UPPER_SNAKE_CASE (re-decoding an all-caps encoding would run initialism extraction on ordinary words)", 5)
 	c11EnvChain(c)
+	c.rule("field-names-decoded", "in FlattenMangler.getTag the words of a derived name are, per path element, the field's tag or DecodeGoCamelCase of the field's name - nothing else", 2)
+	c19FieldNamesDecoded(c, "field-names-decoded")
 	c.rule("separator-agree", "for each separator-based scheme the rune/string the encoder joins with equals the rune the decoder splits on", 4)
 	c.rule("alphabet-agree", "no decoder's validity check rejects a decimal digit inside a word (encoders emit words over [a-z][a-z0-9]*), and all reject a leading digit the same way", 4)
 	c.rule("decoder-lowers", "every word appended by a decoder is the result of strings.ToLower, of the initialism extractor (which lower-cases), or a substring whose every rune was validated lower-case/digit", 8)
 	c.rule("skip-matches-width", "after a separator the next word starts at key + 1 for an ASCII separator constant, or key + utf8.RuneLen(separator) for the parameterised decoder; at an upper-case boundary it starts at the key itself", 4)
 	c.rule("initialism-table", "the initialism table consists of non-empty, upper-case constants assigned once, and every scan of it is complete (no early exit that depends on the table's order)", 2)
 	c.rule("initialism-longest", "wherever a word is cut after a table entry (s[len(x):]) the entry is the longest candidate: candidates come sorted by descending length and are taken from the front (or the scan is first-match over a table in which no entry is preceded by a proper prefix of it); the recursive split backs off to shorter candidates, and the greedy cut is only a fallback after the complete split failed", 4)
+	c.rule("tail-flushed", "after a decoder's scan loop a non-empty remainder s[boundary:] is always appended as the last word (the guards of the tail append are evaluated for all boundary <= len(s) <= 3)", 4)
 	c.rule("no-text-dropped", "in every decoder loop the word boundary (the index the next word starts at) only advances on paths that have emitted the pending text s[boundary:key], or on which boundary < key is false (nothing pending)", 5)
 	c.rule("upper-words-extracted", "in the Go-identifier decoder a word is lower-cased whole only under word != strings.ToUpper(word); all-upper-case words go through the initialism extractor", 2)
 
@@ -220,6 +223,7 @@ func runC19(c *Ctx) {
 	for _, dn := range []string{"decodeGoCamelCase", "decodeCamelCase", "decodeLowerCaseWithSplitChar", "DecodeUpperSnakeCase", "DecodeCasePreservingSnakeCase"} {
 		if f := fn(dn); f != nil {
 			c19NoTextDropped(c, f)
+			c19TailFlushed(c, f, "tail-flushed")
 		}
 	}
 
@@ -666,4 +670,227 @@ func c19NoTextDropped(c *Ctx, f *ssa.Function) {
 	if n == 0 {
 		c.undecided("no-text-dropped", name, f.Pos(), "no loop-carried word boundary found in this decoder")
 	}
+}
+
+// c19FieldNamesDecoded: the words a derived (env / flag) name is built from are, per path element, either the
+// field's tag or the Go-identifier decoding of the field's name: in FlattenMangler.getTag nothing else is appended
+// to the path words (a shortcut that takes an all-upper-case name as one word turns JSONAPI into `jsonapi`
+// instead of `json`,`api`).
+func c19FieldNamesDecoded(c *Ctx, rule string) {
+	w := c.W
+	f := w.fn("transform", "FlattenMangler.getTag")
+	if !c.need(f != nil, "transform.FlattenMangler.getTag") {
+		return
+	}
+	c.analysed(relName(f))
+	n := 0
+	for _, i := range allInstrs(f) {
+		ci, ok := i.(*ssa.Call)
+		if !ok || calleeFullName(ci) != "builtin.append" || len(ci.Call.Args) != 2 {
+			continue
+		}
+		if _, isStrs := ci.Type().Underlying().(*types.Slice); !isStrs || types.TypeString(ci.Type(), nil) != "[]string" {
+			continue
+		}
+		n++
+		added := ci.Call.Args[1]
+		name := relName(f) + "#append#" + itoa(n)
+		// (ii) the decoder's result, spread
+		if ex, ok := stripConv(added).(*ssa.Extract); ok && ex.Index == 0 {
+			if dc, ok := ex.Tuple.(*ssa.Call); ok && strings.HasSuffix(calleeFullName(dc), "caseconversion.DecodeGoCamelCase") {
+				_, isName := loadOfFieldNamed(dc.Call.Args[0], "Name")
+				c.check(isName, rule, name, ci.Pos(), "the field name's words come from DecodeGoCamelCase(sf.Name)", "the Go-identifier decoder is applied to "+canon(dc.Call.Args[0])+", not to the field's name")
+				continue
+			}
+		}
+		// (i) the tag looked up on the field
+		if els, ok := sliceElems(added, 0); ok && len(els) == 1 {
+			if ex, ok := els[0].V.(*ssa.Extract); ok && ex.Index == 0 {
+				if lk, ok := ex.Tuple.(*ssa.Call); ok && calleeFullName(lk) == "(reflect.StructTag).Lookup" {
+					c.ok(rule, name, ci.Pos(), "the tag given on the field is one path element")
+					continue
+				}
+			}
+		}
+		c.bad(rule, name, ci.Pos(), "%s is appended to the words of the derived name: a field name reaches the name without going through the Go-identifier decoder (an all-upper-case name such as JSONAPI or HTTPSID is then one word, and the env variable JSON_API is ignored)", canon(added))
+	}
+	if n == 0 {
+		c.bad(rule, relName(f), f.Pos(), "getTag appends nothing to the path words")
+	}
+}
+
+// c19TailFlushed: after a decoder's scan loop the remainder s[boundary:] is a word of the identifier whenever it
+// is not empty. The rule evaluates the conditions guarding the tail append for every 0 <= boundary <= len(s) <= 3
+// (boundary and len(s) are the only integers they may mention, through +/- constants and len of the remainder):
+// whenever len(s) - boundary > 0 all of them must hold. (`boundary < len(s)-1` drops a one-letter last word.)
+func c19TailFlushed(c *Ctx, f *ssa.Function, rule string) {
+	if len(f.Params) == 0 {
+		return
+	}
+	s := ssa.Value(f.Params[0])
+	hdrs := loopHeaders(f)
+	if len(hdrs) == 0 {
+		return
+	}
+	// the tail: a Slice s[L:] that is not in a loop
+	for _, i := range allInstrs(f) {
+		sl, ok := i.(*ssa.Slice)
+		if !ok || sl.X != s || sl.High != nil || sl.Low == nil || inLoop(sl) {
+			continue
+		}
+		L := sl.Low
+		// appended (possibly lower-cased) to the words
+		var app *ssa.Call
+		for _, j := range allInstrs(f) {
+			ci, ok := j.(*ssa.Call)
+			if !ok || calleeFullName(ci) != "builtin.append" || inLoop(ci) {
+				continue
+			}
+			els, ok := sliceElems(ci.Call.Args[1], 0)
+			if !ok || len(els) != 1 {
+				continue
+			}
+			if derivesAny(els[0].V, func(v ssa.Value) bool {
+				x, ok := v.(*ssa.Slice)
+				return ok && x.X == s && x.High == nil && x.Low == L
+			}, &flowOpts{through: map[string]bool{"strings.ToLower": true}}) {
+				app = ci
+			}
+		}
+		if app == nil {
+			continue
+		}
+		var eval func(v ssa.Value, l, n int64) (int64, bool)
+		eval = func(v ssa.Value, l, n int64) (int64, bool) {
+			v = stripConv(v)
+			if v == L {
+				return l, true
+			}
+			if k, ok := constInt(v); ok {
+				return k, true
+			}
+			switch x := v.(type) {
+			case *ssa.Call:
+				if calleeFullName(x) == "builtin.len" {
+					a := x.Call.Args[0]
+					if a == s {
+						return n, true
+					}
+					if rem := remainderOf(a, s, L); rem {
+						return n - l, true
+					}
+				}
+			case *ssa.BinOp:
+				a, ok1 := eval(x.X, l, n)
+				b, ok2 := eval(x.Y, l, n)
+				if ok1 && ok2 {
+					switch x.Op {
+					case token.ADD:
+						return a + b, true
+					case token.SUB:
+						return a - b, true
+					}
+				}
+			}
+			return 0, false
+		}
+		hdrDom := map[*ssa.If]bool{}
+		for _, h := range hdrs {
+			for _, ec := range condsDominating(h) {
+				hdrDom[ec.If] = true
+			}
+			// the loop's own exit condition is not a guard of the tail
+			if iff, ok := h.Instrs[len(h.Instrs)-1].(*ssa.If); ok {
+				hdrDom[iff] = true
+			}
+		}
+		type guard struct {
+			b   *ssa.BinOp
+			val bool
+			str bool // remainder != ""
+		}
+		var guards []guard
+		decided := true
+		for _, ec := range condsDominating(app.Block()) {
+			if hdrDom[ec.If] {
+				continue
+			}
+			b, ok := ec.Cond.(*ssa.BinOp)
+			if !ok {
+				decided = false
+				continue
+			}
+			// remainder == "" / != ""
+			if cs, ok := constString(b.Y); ok && cs == "" && remainderOf(b.X, s, L) {
+				guards = append(guards, guard{b: b, val: ec.Val, str: true})
+				continue
+			}
+			if _, ok1 := eval(b.X, 0, 0); ok1 {
+				if _, ok2 := eval(b.Y, 0, 0); ok2 {
+					guards = append(guards, guard{b: b, val: ec.Val})
+					continue
+				}
+			}
+			decided = false
+		}
+		name := relName(f) + "#tail"
+		if !decided {
+			c.okTrivial(rule, name, app.Pos(), "the tail append is guarded by a condition over other quantities than the boundary and len(s): not decided")
+			continue
+		}
+		counter := ""
+		for n := int64(0); n <= 3 && counter == ""; n++ {
+			for l := int64(0); l <= n && counter == ""; l++ {
+				if n-l <= 0 {
+					continue
+				}
+				for _, g := range guards {
+					var holds bool
+					if g.str {
+						holds = (n-l == 0) == (g.b.Op == token.EQL)
+					} else {
+						a, _ := eval(g.b.X, l, n)
+						b, _ := eval(g.b.Y, l, n)
+						switch g.b.Op {
+						case token.LSS:
+							holds = a < b
+						case token.LEQ:
+							holds = a <= b
+						case token.GTR:
+							holds = a > b
+						case token.GEQ:
+							holds = a >= b
+						case token.EQL:
+							holds = a == b
+						case token.NEQ:
+							holds = a != b
+						}
+					}
+					if holds != g.val {
+						counter = "boundary=" + itoa(int(l)) + ", len(s)=" + itoa(int(n))
+					}
+				}
+			}
+		}
+		c.check(counter == "", rule, name, app.Pos(), "a non-empty remainder s[boundary:] is always appended as the last word ("+itoa(len(guards))+" guard(s), all boundary <= len(s) <= 3)",
+			"the last word is dropped although the remainder is not empty, e.g. for "+counter+": an identifier whose last word has that length decodes without it")
+	}
+}
+
+// remainderOf: v is s[L:] (possibly lower-cased).
+func remainderOf(v, s, L ssa.Value) bool {
+	return derivesAny(v, func(x ssa.Value) bool {
+		sl, ok := x.(*ssa.Slice)
+		return ok && sl.X == s && sl.High == nil && sl.Low == L
+	}, &flowOpts{through: map[string]bool{"strings.ToLower": true}}) && func() bool {
+		// no further slicing in between
+		_, isSlice := v.(*ssa.Slice)
+		if isSlice {
+			return true
+		}
+		if c, ok := v.(*ssa.Call); ok && calleeFullName(c) == "strings.ToLower" {
+			return true
+		}
+		return false
+	}()
 }
